@@ -7,7 +7,7 @@ Local Open Scope Z_scope.
 Lemma hex_loop_digits rest : forall ds fuel c acc,
   (length ds + 2 <= fuel)%nat -> is_xdigit c = true -> forallb is_xdigit ds = true ->
   hex_loop fuel (mkS (ds ++ DQUOTE :: rest) false false) c acc =
-  (mkS rest false false, DQUOTE, acc ++ c :: ds).
+  (mkS rest false false, DQUOTE, acc ++ map up_hex (c :: ds)).
 Proof.
   induction ds as [|d ds IH]; intros fuel c acc Hf Hc Hd.
   - destruct fuel as [|[|f]]; cbn [length] in Hf; try lia.
@@ -27,7 +27,7 @@ Qed.
 Theorem binary_literal_read ds rest :
   ds <> [] -> forallb is_xdigit ds = true ->
   read_binary (of_bytes (DQUOTE :: ds ++ DQUOTE :: rest)) SEVERITY_NULL true =
-  (Some ds, SEVERITY_NULL, mkS rest false false).
+  (Some (map up_hex ds), SEVERITY_NULL, mkS rest false false).
 Proof.
   intros Hne Hd. destruct ds as [|d ds]; [congruence|].
   cbn [forallb] in Hd. apply andb_prop in Hd. destruct Hd as [Hd0 Hds].
@@ -64,7 +64,7 @@ Proof.
   rewrite Dq, Hd0. cbn [orb]. cbv iota.
   (* the loop stops at c, which is not a quote: valid = false *)
   assert (L : forall ds0 fuel c0 acc, (length ds0 + 2 <= fuel)%nat -> is_xdigit c0 = true -> forallb is_xdigit ds0 = true ->
-              hex_loop fuel (mkS (ds0 ++ c :: rest) false false) c0 acc = (mkS rest false false, c, acc ++ c0 :: ds0)).
+              hex_loop fuel (mkS (ds0 ++ c :: rest) false false) c0 acc = (mkS rest false false, c, acc ++ map up_hex (c0 :: ds0))).
   { induction ds0 as [|x ds0 IH]; intros fuel c0 acc Hf H0 Hs.
     - destruct fuel as [|[|f]]; cbn [length] in Hf; try lia.
       cbn [hex_loop app]. change (good (mkS (c :: rest) false false)) with true. rewrite H0. cbn [andb].
